@@ -82,6 +82,9 @@ func run(c *hl.Ctx) error {
 	}
 	r := c.Rand()
 	n := c.Pick(60, 3000)
+	if c.Search && c.Tier != "thorough" {
+		n = 240 // a proof or the correspondence broke: search longer than the quick tier, not the whole thorough budget
+	}
 	for i := 0; i < n; i++ {
 		perturb := r.Intn(4) != 0
 		sc, kind := genScript(r, !c.Quick() && r.Intn(3) == 0)
